@@ -391,6 +391,10 @@ func SetTypeConverter(typ reflect.Type, conv TypeConverter) {
 func getTypeConverter(typ reflect.Type) (TypeConverter, error) {
 	kind := typ.Kind()
 	if conv, ok := kindConverters[kind]; ok {
+		if base := basicKindTypes[kind]; base != typ {
+			// a declared type over a basic kind (time.Duration, fs.FileMode, ...)
+			return &NamedConverter{typ: typ, base: base, conv: conv}, nil
+		}
 		return conv, nil
 	}
 	if conv, ok := typeConverters[typ]; ok {
@@ -448,6 +452,43 @@ func getTypeConverter(typ reflect.Type) (TypeConverter, error) {
 		return nil, errz.TypeErrorf("type error: unsupported kind: %s", kind)
 	}
 	return converter, nil
+}
+
+var basicKindTypes = map[reflect.Kind]reflect.Type{
+	reflect.Bool:    reflect.TypeOf(false),
+	reflect.Int:     reflect.TypeOf(int(0)),
+	reflect.Int8:    reflect.TypeOf(int8(0)),
+	reflect.Int16:   reflect.TypeOf(int16(0)),
+	reflect.Int32:   reflect.TypeOf(int32(0)),
+	reflect.Int64:   reflect.TypeOf(int64(0)),
+	reflect.Uint:    reflect.TypeOf(uint(0)),
+	reflect.Uint8:   reflect.TypeOf(uint8(0)),
+	reflect.Uint16:  reflect.TypeOf(uint16(0)),
+	reflect.Uint32:  reflect.TypeOf(uint32(0)),
+	reflect.Uint64:  reflect.TypeOf(uint64(0)),
+	reflect.Float32: reflect.TypeOf(float32(0)),
+	reflect.Float64: reflect.TypeOf(float64(0)),
+	reflect.String:  reflect.TypeOf(""),
+}
+
+// NamedConverter converts between a declared type whose underlying type is a
+// basic kind (e.g. time.Duration) and the Risor equivalent of that kind.
+type NamedConverter struct {
+	typ  reflect.Type
+	base reflect.Type
+	conv TypeConverter
+}
+
+func (c *NamedConverter) To(obj Object) (interface{}, error) {
+	v, err := c.conv.To(obj)
+	if err != nil {
+		return nil, err
+	}
+	return reflect.ValueOf(v).Convert(c.typ).Interface(), nil
+}
+
+func (c *NamedConverter) From(obj interface{}) (Object, error) {
+	return c.conv.From(reflect.ValueOf(obj).Convert(c.base).Interface())
 }
 
 // intRangeError reports a script int that does not fit the Go integer kind.
